@@ -47,7 +47,10 @@ FAULTS_V3 = [("connect", "refuse"), ("connect", "hang"), ("connect", "accept-rst
              ("handshake", "drop"), ("handshake", "error"), ("handshake", "garbage"), ("handshake", "fin"), ("handshake", "rst"),
              ("handshake", "cancel"), ("handshake", "slow-cancel"),
              ("data", "drop"), ("data", "wedge"), ("data", "error"), ("data", "garbage"), ("data", "fin"), ("data", "rst"), ("data", "cancel"),
-             ("data", "error-wedge"), ("data", "garbage-wedge"), ("data", "cancel-wedge")]
+             ("data", "error-wedge"), ("data", "garbage-wedge"), ("data", "cancel-wedge"),
+             # not faults of the exchange itself: the unit answers and closes the connection at once (one request per connection)
+             ("data", "answer-fin"), ("data", "answer-rst")]
+BENIGN = ("answer-fin", "answer-rst")
 FAULTS_V2 = [f for f in FAULTS_V3 if f[0] != "handshake"]
 
 
@@ -86,6 +89,19 @@ def generate(ctx, rng):
         for k in range(0, 65):
             for rd in ([[None, 0.3, 2.25, 4.25][k % 4]] if quick else [None, 0.3, 2.25, 4.25]):
                 yield ("cancel", version, k, rd), {"kind": "cancel", "version": version, "at": 0.03 + 0.1 * k, "reply_delay": rd}
+    # the same object used by a second asyncio.run() of the process, after a first run that ended without a connection
+    for version in (2, 3):
+        for ending in ("refused", "silent", "error", "garbage", "hang"):
+            for level in ("lan", "device"):
+                yield ("second-loop", version, ending, level), {"kind": "second-loop", "version": version, "ending": ending, "level": level}
+    # longer fault sequences (thorough): 4..6 consecutive faults, then recovery
+    if not quick:
+        for j in range(40000):
+            version = rng.choice([2, 3])
+            faults = FAULTS_V3 if version == 3 else FAULTS_V2
+            seq = [list(rng.choice(faults)) for _ in range(rng.randint(4, 6))]
+            yield ("faultN", j), {"kind": "faults", "version": version, "seq": seq, "level": rng.choice(["lan", "device"]),
+                                  "lifetime": rng.choice([None, None, 90, 3600])}
     # finer delay grid (thorough)
     if not quick:
         fine = [None, 0.05, 0.95, 1.95, 2.05, 3.95, 4.05, 5.95, 6.05, 7.95]
@@ -123,6 +139,8 @@ def run_case(ctx, case):
         return _retry(ctx, case)
     if k == "faults":
         return _faults(ctx, case)
+    if k == "second-loop":
+        return _second_loop(ctx, case)
     return _cancel(ctx, case)
 
 
@@ -283,6 +301,8 @@ def _faults(ctx, case):
 
     def on_exchange(conn, req, packets, meta):
         if st["armed"] and st["phase"] == "data":
+            if st["fault"] in BENIGN:
+                return [(0, p) for p in packets] + [(0, st["fault"][7:])]
             return fault_actions(conn, "data")
         return None
 
@@ -376,12 +396,99 @@ def _faults(ctx, case):
                       {"log": log})
     else:
         ctx.count(key, kind="recovery-ok", sample={"version": version, "level": level, "lifetime": case.get("lifetime"), "faults": fclass, "log": log})
+    for e in log[1:-2]:
+        if e[0].split("/")[-1] in BENIGN:
+            ctx.bump("answered-then-closed-exchanges-checked")
+            fine = (e[1] == "returned" and e[2] is True) if level == "device" else e[1] == "frames"
+            if not fine:
+                ctx.violation(f"answered-exchange-failed/{e[0].split('/')[-1]}", f"the unit answered and then closed the connection, but the exchange ended as {e[1:]} "
+                              f"({level} level, V{version}, after [{fclass}])", case, {"log": log})
     if level == "device":
         for e in log[1:-2]:
+            if e[0].split("/")[-1] in BENIGN:
+                continue
             if e[1].startswith("exc:") and e[1] != "exc:CancelledError":
                 ctx.violation(f"device-call-raises/{e[1][4:]}", f"refresh() raised {e[1][4:]} under fault {e[0]}", case, {"log": log})
             elif e[1] == "returned" and e[2] is True:
                 ctx.violation("online-after-failed-exchange", f"refresh() under fault {e[0]} reports online=True", case, {"log": log})
+
+
+def _second_loop(ctx, case):
+    """asyncio.run() twice in one process with one device object: the first run ends with a failed exchange (no connection is
+    left), the second one - a new event loop - finds the unit healthy."""
+    version, level, ending = case["version"], case["level"], case["ending"]
+    q = acframe.state_query(9)
+    holder = {}
+
+    def make(net, healthy):
+        dev = _mkdev(net, version)
+        if not healthy:
+            if ending in ("refused", "hang"):
+                dev.connect_default = "refuse" if ending == "refused" else "hang"
+            else:
+                def on_exchange(conn, req, packets, meta):
+                    if ending == "silent":
+                        return []
+                    if ending == "error":
+                        return [(0, v3.build_error(0) if version == 3 else b"\x5a\x5a" + bytes(30))]
+                    return [(0, bytes(range(7, 60)))]
+                dev.on_exchange = on_exchange
+        return dev
+
+    async def use(ac):
+        try:
+            if level == "device":
+                await ac.refresh()
+                return "returned", ac.online
+            res = await ac._lan.send(q)
+            return ("frames" if res else "empty"), None
+        except (KeyboardInterrupt, SystemExit):
+            raise
+        except BaseException as e:  # noqa: BLE001
+            return "exc:" + type(e).__name__, None
+
+    net1 = H.new_net()
+    dev1 = make(net1, False)
+
+    async def run1(loop):
+        ac = AC(ip=dev1.host, port=dev1.port, device_id=dev1.device_id)
+        holder["ac"] = ac
+        if version == 3:
+            try:
+                await ac.authenticate(TOKEN, KEY)
+            except Exception:  # noqa: BLE001 - refused / hanging connects end here
+                # the application keeps the credentials it was configured with; the next use authenticates
+                pass
+        return await use(ac)
+
+    key = ("second-loop", version, ending, level)
+    try:
+        first, _ = H.run_virtual(run1, net1)
+    except Exception as e:  # noqa: BLE001
+        ctx.count(key, kind="fault-sequence-aborted")
+        ctx.violation(f"harness-or-loop/{type(e).__name__}", f"first run aborted: {type(e).__name__}: {e}", case)
+        return
+    net2 = H.new_net()
+    dev2 = make(net2, True)
+
+    async def run2(loop):
+        ac = holder["ac"]
+        if version == 3 and ending in ("refused", "hang"):
+            await ac.authenticate(TOKEN, KEY)
+        return await use(ac)
+
+    try:
+        second, _ = H.run_virtual(run2, net2)
+    except Exception as e:  # noqa: BLE001
+        ctx.count(key, kind="recovery-failed")
+        ctx.violation(f"no-recovery/second-event-loop", f"second run with the same object raised {type(e).__name__}: {e} (first run ended {ending}: {first})", case)
+        return
+    good = second == ("returned", True) if level == "device" else second[0] == "frames"
+    ctx.count(key, kind="recovery-ok" if good else "recovery-failed")
+    ctx.bump("second-event-loop-checked")
+    if not good or not dev2.frames_seen:
+        ctx.violation("no-recovery/second-event-loop", f"second asyncio.run() with the same object: {second}, {len(dev2.frames_seen)} requests reached the unit "
+                      f"(first run ended {ending}: {first}; {level} level, V{version})", case)
 
 
 def _last_fault(case):
